@@ -6,6 +6,7 @@ import typing
 
 
 from .core import (
+    _builtin_exprs,
     ParserElement,
     ParseException,
     Keyword,
@@ -49,6 +50,9 @@ class pyparsing_test:
 
         def save(self):
             self._save_context["default_whitespace"] = ParserElement.DEFAULT_WHITE_CHARS
+            self._save_context["builtin_whitespace"] = [
+                (expr, set(expr.whiteChars)) for expr in _builtin_exprs
+            ]
             self._save_context["default_keyword_chars"] = Keyword.DEFAULT_KEYWORD_CHARS
 
             self._save_context["literal_string_class"] = (
@@ -89,6 +93,8 @@ class pyparsing_test:
                 ParserElement.set_default_whitespace_chars(
                     self._save_context["default_whitespace"]
                 )
+            for expr, white_chars in self._save_context["builtin_whitespace"]:
+                expr.whiteChars = white_chars
 
             ParserElement.verbose_stacktrace = self._save_context["verbose_stacktrace"]
 
